@@ -2,7 +2,7 @@
 """dbg_oracle.py <mode> <n> <seed>: run broker family, evaluate the spec oracle, print failing steps with codes."""
 import sys, json, subprocess, os, re
 mode, n, seed = sys.argv[1], sys.argv[2], sys.argv[3]
-out = subprocess.run(['/verif/harness/bin/wharness','broker','gen','-n',n,'-seed',seed,'-mode',mode],stdout=subprocess.PIPE,stderr=subprocess.DEVNULL,text=True).stdout
+out = subprocess.run([os.environ.get('WHARNESS','/verif/harness/bin/wharness'),'broker','gen','-n',n,'-seed',seed,'-mode',mode],stdout=subprocess.PIPE,stderr=subprocess.DEVNULL,text=True).stdout
 cases=[json.loads(l) for l in out.splitlines()]
 d='/verif/work/dbgo_%s_%s'%(mode,seed)
 os.makedirs(d,exist_ok=True)
